@@ -287,13 +287,14 @@ def main(argv=None):
                                'replay_file', 'input')} for v in new_v]
     cov['checker_errors'] = checker_errors
     level = spec['level']
+    oos_funcs = (proof or {}).get('out_of_subset', [])
     if level == 'proof' and (not proof or discharged < obligations
-                             or obligations == 0):
-        # a proof claim that did not fully discharge is reported at the level
-        # actually reached on this run
+                             or obligations == 0 or oos_funcs):
+        # a proof claim that did not fully discharge - or that lost a function to the
+        # out-of-subset list on this tree - is reported at the level actually reached on this run
         level = 'other'
-        cov['level_downgraded'] = ('claimed proof, but %d of %d obligations '
-                                   'discharged on this run' % (discharged, obligations))
+        cov['level_downgraded'] = ('claimed proof, but %d of %d obligations discharged and %d function '
+                                   'case(s) out of the subset on this run' % (discharged, obligations, len(oos_funcs)))
     ev = {
         'property_id': prop, 'tier': a.tier, 'seed': a.seed, 'level': level,
         'coverage': cov,
